@@ -383,6 +383,11 @@ ListOp(f, cur, op, path) ==
             IF op.m = "slice_from"
             THEN (IF r.ok THEN Res(TRUE, ListV(r.cfg), NoErr, {}) ELSE Res(FALSE, cur, r.err, {}))
             ELSE Res(r.ok, ListV(l \o r.cfg), r.err, {})
+      [] op.m = "item_set" ->
+            \* cfg.<list>[i].<k> = v : assignment on a configuration held in the list
+            IF op.i >= n THEN Res(FALSE, cur, Err("IndexError", path), {})
+            ELSE LET r == SetValue(f.item, l[op.i + 1], op.k, op.v, Append(path, <<"#", op.i + 1>>)) IN
+                 Res(r.ok, ListV([l EXCEPT ![op.i + 1] = r.cfg]), r.err, {})
       [] op.m = "pop" ->
             IF n = 0 THEN Res(FALSE, cur, Err("IndexError", path), {})
             ELSE Res(TRUE, ListV(SubSeq(l, 1, n - 1)), NoErr, {})
